@@ -214,7 +214,8 @@ PARAMS = {
     "merton_jump": [{}, {"mu": 0.1, "sigma": 0.5, "jump_per_year": 5.0, "jump_mean": -0.1, "jump_std": 0.3,
                          "dt": 1 / 12}, {"jump_per_year": 0.0}],
     "kou_jump": [{}, {"sigma": 0.5, "mu": 0.1, "jump_per_year": 5.0, "jump_mean_up": 0.3, "jump_mean_down": 0.2,
-                      "jump_up_prob": 0.3, "dt": 1 / 12}, {"jump_up_prob": 1.0, "jump_per_year": 1.0}],
+                      "jump_up_prob": 0.3, "dt": 1 / 12}, {"jump_up_prob": 1.0, "jump_per_year": 1.0},
+                 {"jump_per_year": 0.0}],       # zero jump intensity (x non-default initial states)
     "rough_bergomi": [{}, {"alpha": -0.1, "rho": 0.5, "eta": 3.0, "xi": 0.01},
                       {"alpha": -0.45, "rho": 0.0, "eta": 0.5, "xi": 0.0004}],
     "local_volatility": [{"sigma_fn": "const"}, {"sigma_fn": "time", "dt": 1 / 12}, {"sigma_fn": "spot"},
